@@ -1,0 +1,53 @@
+//go:build verif
+
+// Contracts for package data, checked by /verif/gvc (comment-only file).
+// A Data value denotes an immutable map: dget(d, k) is the value under k (nil = absent).
+
+package data
+
+//@ iface Data.Value(k) (v)
+//@   ensures v == dget(self, k)
+//@   assigns nothing
+
+//@ iface Data.Keys() (ks)
+//@   assigns nothing
+
+//@ func New() (d)
+//@   unfold-post forall k Iface {dget(d, k)} :: dget(d, k) == nil
+//@   ensures d != nil
+//@   ensures [C02] empty: forall k Iface {dget(d, k)} :: dget(d, k) == nil
+//@   assigns nothing
+
+//@ func (d *emptyData) Value(k) (v)
+//@   unfold dget(boxed(d), k) == nil
+//@   assigns nothing
+
+//@ func (d *emptyData) Keys() (ks)
+//@   assigns nothing
+
+//@ func WithValue(d, k, v) (d1)
+//@   requires d != nil && k != nil && v != nil
+//@   unfold-post forall q Iface {dget(d1, q)} :: dget(d1, q) == ite(q == k, v, dget(d, q))
+//@   ensures d1 != nil
+//@   ensures [C02] persistent-extension: forall q Iface {dget(d1, q)} :: dget(d1, q) == ite(q == k, v, dget(d, q))
+//@   assigns nothing
+
+//@ func (d *valueData) Value(k) (v)
+//@   requires d.Data != nil
+//@   unfold dget(boxed(d), k) == ite(k == d.k, d.v, dget(d.Data, k))
+//@   assigns nothing
+
+//@ func Lookup(d, k, vptr) (ok)
+//@   trusted copies the stored value into *vptr by reflection (reflect.Value.Set); summarised
+//@   requires d != nil
+//@   assigns pointee(vptr)
+//@   ensures ok <==> dget(d, k) != nil
+//@   ensures ok ==> pointeeBoxed(vptr) == dget(d, k)
+//@   ensures !ok ==> pointeeBoxed(vptr) == old(pointeeBoxed(vptr))
+
+//@ func Index(d) (d1)
+//@   trusted builds a map-backed copy of the same key/value pairs; summarised
+//@   requires d != nil
+//@   assigns nothing
+//@   ensures d1 != nil
+//@   ensures forall q Iface {dget(d1, q)} :: dget(d1, q) == dget(d, q)
